@@ -1102,3 +1102,52 @@ def cmp_parts_(x):
 
 
 RULES += [r20_select_bool_reads_cond_first]
+
+
+def r21_negation_needs_a_definition(ctx):
+    ctx.rule("C03.r21", "flat_boolean_numerical_domain remembers for a Boolean b a set of constraints that hold WHEN b IS TRUE (b => c). "
+             "`x := not y` may turn a remembered singleton {c} into {not c} only if c DEFINES y (y <=> c, as after y := (c)); the "
+             "reductions of select_bool store sets that are mere consequences (the facts of cond met with those of the chosen operand), "
+             "so the negation site must be guarded by something that tells definitions from consequences", floor=1)
+    FB = "include/crab/domains/flat_boolean_domain.hpp"
+    fs = [f for f in ctx.db.fns(FB) if (f.get("cpk") or "").endswith("flat_boolean_numerical_domain") and f.get("body")]
+    if not ctx.need(fs, "flat_boolean_numerical_domain"):
+        return
+    seen = set()
+    producers = []
+    negations = []
+    for fn in fs:
+        if (fn["name"], fn["line"]) in seen:
+            continue
+        seen.add((fn["name"], fn["line"]))
+        body = fn["body"]
+        g = None
+        for c in walk(body):
+            # a consequence set: env.set(lhs, env.at(a) & env.at(b))
+            if is_call(c, name="set") and len(c.get("a", [])) == 2:
+                v = strip_move(c["a"][1])
+                if isinstance(v, dict) and v.get("k") == "call" and v.get("op") == "&" and all(any(is_call(y, name="at") for y in walk(z)) for z in ([v.get("o")] + v.get("a", []))):
+                    producers.append((fn, c))
+            # a negation of a remembered singleton
+            if is_call(c, name="negate") and any(is_call(y, name=("begin",)) for y in walk(body)):
+                g = g or paths.guards(body)
+                conds = [cnd for cnd, pol in g.get(id(c), ()) if not isinstance(cnd, tuple)]
+                sized = any(any(is_call(y, name="size") for y in walk(cnd)) for cnd in conds)
+                tagged = any(any(isinstance(y, dict) and y.get("k") in ("call", "mem", "ref") and any(t in ((callee(y) or {}).get("name") or y.get("n") or "").lower()
+                                                                                                  for t in ("exact", "defin", "equiv", "iff")) for y in walk(cnd)) for cnd in conds)
+                if sized:
+                    negations.append((fn, c, tagged))
+    if not negations:
+        ctx.undecided("no negation of a remembered singleton found", fs[0], fs[0]["body"])
+        return
+    for fn, c, tagged in negations:
+        if tagged or not producers:
+            ctx.ok("%s: the negated singleton is known to be a definition" % fn["name"], fn, c)
+        else:
+            ctx.bad("flat_boolean_numerical_domain::%s negates a remembered singleton {c} as if y <=> c, but `%s` stores sets that are only "
+                    "consequences (b => c): cond := (v <= 0); b2 := false; lhs := select_bool(cond, b1, b2); z := not(lhs); assume(z) "
+                    "gives v >= 1 although the run v = -5, b1 = false (lhs false, z true) exists" % (fn["name"], producers[0][0]["name"]), fn, c,
+                    sig="negates-implied-singleton:%s" % fn["name"])
+
+
+RULES += [r21_negation_needs_a_definition]
